@@ -187,6 +187,12 @@ Theorem newblock_never_dangling : forall st o r l st' o' tr,
 Proof. exact newblock_never_dangling_lemma. Qed.
 Print Assumptions newblock_never_dangling.
 
+(** (6) round 3: callers and callees agree on the failure value (a check `FAIL == f()` of a function that returns
+    FALSE on failure never fires) -- over the call sites of 35 I/O-path functions in six files, regenerated *)
+Theorem conventions_consistent : forallb conv_ok conventions = true /\ (40 <= List.length conventions)%nat.
+Proof. exact conventions_consistent_lemma. Qed.
+Print Assumptions conventions_consistent.
+
 (** S-level: the two formulations of the property on observations *)
 Theorem visible_implies_judge : forall o,
   safe o = true ->
